@@ -261,11 +261,15 @@ func (p *c17) Exec(t *testing.T, scAny any) Outcome {
 	out.stat("probe.stall-took-effect", 1)
 	timeout := int64(sc.Client.timeout())
 	const eps = int64(time.Millisecond)
+	// every call record exists from the moment the call started (a call that never returns
+	// has no other trace)
 	var calls []*CallRec
-	if run.DialCall != nil {
-		calls = append(calls, run.DialCall)
+	for i := range run.Env.Calls {
+		switch run.Env.Calls[i].Name {
+		case "DialWithContext", "DialAndSend", "Send", "Reset":
+			calls = append(calls, &run.Env.Calls[i])
+		}
 	}
-	calls = append(calls, run.SendCalls...)
 	judged := 0
 	for _, c := range calls {
 		if c.Returned && c.EndNs < ts {
